@@ -6,6 +6,6 @@ base = os.path.join(os.path.dirname(os.path.abspath(__file__)), "..", "evidence"
 os.makedirs(os.path.join(base, "thorough"), exist_ok=True)
 for f in sorted(glob.glob(base + "/C*.json")):
     d = json.load(open(f))
-    if d.get("tier") == "thorough" and not d.get("violations"):
+    if d.get("tier") == "thorough" and not d.get("violations") and not (d.get("coverage") or {}).get("inconclusive"):
         shutil.copy(f, os.path.join(base, "thorough", os.path.basename(f)))
         print("kept", os.path.basename(f), "wall_s", d.get("wall_s"))
